@@ -152,6 +152,19 @@ class TokString(Token):
         super().__init__(*args, **kwargs)
 
     @property
+    def value(self):
+        """The string value.
+
+        As in Lua, a line break that immediately follows the opening long
+        bracket of a multiline string is not part of the string.
+        """
+        if self._multiline_quote is not None:
+            for newline in (b'\r\n', b'\n\r', b'\n', b'\r'):
+                if self._data.startswith(newline):
+                    return self._data[len(newline):]
+        return self._data
+
+    @property
     def code(self):
         if self._multiline_quote is not None:
             return (b'[' + self._multiline_quote + b'[' +
